@@ -32,6 +32,9 @@ def _ck_cases(tier, rng):
             yield "exh", c
     for _ in range(40000 if thorough else 5000):
         c = genck.random_case(rng, ans_weights=AW, max_posts=3, max_snaps=3, raising_errors=False)
+        if c["async"]:
+            # every second captured pre-state is itself an awaitable object: OLD must hold that very object
+            c["awaitableCaptureValues"] = [sid for sid, a in c["capture"] if sid % 2 == 0 and "val" in a]
         yield "rnd", c
         if any(l["snaps"] for l in c["levels"]) and rng.random() < 0.35:
             # the same call again on the same decorated callable: captured afresh, every time
